@@ -254,8 +254,12 @@ func (gb GenBank) String() string {
 	for _, ref := range gb.Fields.References {
 		b.WriteString(fmt.Sprintf("REFERENCE   %d", ref.Number))
 		if ref.Info != "" {
-			pad := strings.Repeat(" ", 3-len(strconv.Itoa(ref.Number)))
-			b.WriteString(pad + ref.Info)
+			// Numbers of four or more digits leave no room for padding (the
+			// reader skips none for them either).
+			if n := 3 - len(strconv.Itoa(ref.Number)); n > 0 {
+				b.WriteString(strings.Repeat(" ", n))
+			}
+			b.WriteString(ref.Info)
 		}
 		b.WriteByte('\n')
 		if ref.Authors != "" {
